@@ -260,6 +260,8 @@ def check_frame(ex, reg, contract, state, pre, kind):
     # symbolic-record heap
     for key, arr in state.sheap.items():
         shape, fld = key
+        if shape == "$alloc":
+            continue        # allocation of fresh records is always permitted
         base = fld.replace("?none", "")
         if ("%s.%s" % (shape, base)) in mods or ("%s.*" % shape) in mods:
             continue
@@ -269,7 +271,12 @@ def check_frame(ex, reg, contract, state, pre, kind):
         if parr.eq(arr):
             continue
         k = z3.Int(fresh_name("fk"))
-        ex.oblige(kind, state, z3.Select(parr, k) == z3.Select(arr, k), label="%s.%s" % key)
+        # records allocated by this unit may be initialised freely; every record that existed before is framed
+        alloc0 = pre.sheap.get(("$alloc", ""))
+        if alloc0 is None:
+            alloc0 = z3.Array("H0_alloc", z3.IntSort(), z3.BoolSort())
+        ex.oblige(kind, state, z3.Implies(z3.Select(alloc0, k), z3.Select(parr, k) == z3.Select(arr, k)),
+                  label="%s.%s" % key)
 
 
 def _eq_pre_post(self, state, pre, pv, sv):
